@@ -23,6 +23,9 @@ func genLarge(t *rapid.T) LargeCase {
 	var c LargeCase
 	c.Codec = codecNames[rapid.IntRange(0, len(codecNames)-1).Draw(t, "codec")]
 	c.MiB = []int{1, 4, 16, 32, 64, 64, 65}[rapid.IntRange(0, 6).Draw(t, "mib")]
+	if kit.RaceEnabled && c.MiB > 4 {
+		c.MiB = 4 // the race detector slows the codecs by an order of magnitude; the sizes beyond are covered by the other builds
+	}
 	c.Extra = []int{0, 1, 4097}[rapid.IntRange(0, 2).Draw(t, "extra")]
 	c.In = Input{Mode: []string{"repeat", "zero", "mixed"}[rapid.IntRange(0, 2).Draw(t, "mode")], Seed: rapid.Uint64().Draw(t, "seed"), Motif: []byte("parquet-go verif motif 0123456789")}
 	return c
